@@ -156,7 +156,22 @@ def _thrift():
     return parquet_thrift
 
 
-def data_page(rep, de, vals, max_rep, max_def, ptype, version, dictionary, level_style, num_rows):
+CODECS = {None: 0, "SNAPPY": 1, "GZIP": 2}       # parquet.thrift CompressionCodec
+
+
+def compress(b, codec):
+    """page (v1) / values (v2) compression; cramjam is trusted (hypothesis decompress(compress b) = b)"""
+    if codec is None:
+        return b
+    import cramjam
+    if codec == "SNAPPY":
+        return bytes(cramjam.snappy.compress_raw(b))
+    if codec == "GZIP":
+        return bytes(cramjam.gzip.compress(b))
+    raise ValueError(codec)
+
+
+def data_page(rep, de, vals, max_rep, max_def, ptype, version, dictionary, level_style, num_rows, codec=None):
     """One data page (header bytes + payload) for the entries rep/de and their non-null values.
     dictionary: None (PLAIN) or list of distinct values (indices RLE_DICTIONARY)."""
     pt = _thrift()
@@ -179,30 +194,36 @@ def data_page(rep, de, vals, max_rep, max_def, ptype, version, dictionary, level
         if max_def:
             payload += struct.pack("<I", len(dl)) + dl
         payload += vbytes
+        usize = len(payload)
+        payload = compress(payload, codec)
         dph = pt.DataPageHeader(num_values=n, encoding=enc,
                                 definition_level_encoding=pt.Encoding.RLE,
                                 repetition_level_encoding=pt.Encoding.RLE, i32=1)
-        ph = pt.PageHeader(type=pt.PageType.DATA_PAGE, uncompressed_page_size=len(payload),
+        ph = pt.PageHeader(type=pt.PageType.DATA_PAGE, uncompressed_page_size=usize,
                            compressed_page_size=len(payload), data_page_header=dph, i32=1)
     else:
-        payload = rl + dl + vbytes
+        # v2: the level streams are never compressed, only the values
+        usize = len(rl) + len(dl) + len(vbytes)
+        payload = rl + dl + compress(vbytes, codec)
         nnull = sum(1 for d in de if d != max_def)
         dph = pt.DataPageHeaderV2(num_values=n, num_nulls=nnull, num_rows=num_rows, encoding=enc,
                                   definition_levels_byte_length=len(dl),
                                   repetition_levels_byte_length=len(rl),
-                                  is_compressed=False, i32=1)
-        ph = pt.PageHeader(type=pt.PageType.DATA_PAGE_V2, uncompressed_page_size=len(payload),
+                                  is_compressed=codec is not None, i32=1)
+        ph = pt.PageHeader(type=pt.PageType.DATA_PAGE_V2, uncompressed_page_size=usize,
                            compressed_page_size=len(payload), data_page_header_v2=dph, i32=1)
-    return bytes(ph.to_bytes()) + payload
+    return bytes(ph.to_bytes()) + payload, usize + len(ph.to_bytes())
 
 
-def dict_page(dictionary, ptype):
+def dict_page(dictionary, ptype, codec=None):
     pt = _thrift()
     payload = plain(dictionary, ptype)
+    usize = len(payload)
+    payload = compress(payload, codec)
     dph = pt.DictionaryPageHeader(num_values=len(dictionary), encoding=pt.Encoding.PLAIN, i32=1)
-    ph = pt.PageHeader(type=pt.PageType.DICTIONARY_PAGE, uncompressed_page_size=len(payload),
+    ph = pt.PageHeader(type=pt.PageType.DICTIONARY_PAGE, uncompressed_page_size=usize,
                        compressed_page_size=len(payload), dictionary_page_header=dph, i32=1)
-    return bytes(ph.to_bytes()) + payload
+    return bytes(ph.to_bytes()) + payload, usize + len(ph.to_bytes())
 
 
 def split_at(seq, cuts):
@@ -302,6 +323,8 @@ def write_file(path, cols, row_groups):
                 _, _, max_def = levels_of_shape(leaf["row_opt"], leaf["elem_opt"])
                 pages = chunk_pages(rep, de, vals, max_def, lay["cuts"])
                 start = len(body)
+                codec = lay.get("codec")
+                usize_total = 0
                 dictionary = None
                 dict_off = None
                 encs = [pt.Encoding.RLE, pt.Encoding.PLAIN]
@@ -315,17 +338,21 @@ def write_file(path, cols, row_groups):
                     if not dictionary:
                         dictionary = list(lay.get("dict_pad") or [_zero(leaf["ptype"])])
                     dict_off = start
-                    body += dict_page(dictionary, leaf["ptype"])
+                    pg, us = dict_page(dictionary, leaf["ptype"], codec)
+                    body += pg
+                    usize_total += us
                     encs = [pt.Encoding.RLE, pt.Encoding.PLAIN, pt.Encoding.RLE_DICTIONARY]
                 data_off = len(body)
                 for (r, d, v, nr) in pages:
-                    body += data_page(r, d, v, 1, max_def, leaf["ptype"], lay["version"], dictionary,
-                                      lay.get("level_style", "mixed"), nr)
+                    pg, us = data_page(r, d, v, 1, max_def, leaf["ptype"], lay["version"], dictionary,
+                                       lay.get("level_style", "mixed"), nr, codec)
+                    body += pg
+                    usize_total += us
                 size = len(body) - start
                 cmd = ThriftObject.from_fields(
                     "ColumnMetaData", type=PTYPES[leaf["ptype"]][0], path_in_schema=list(leaf["path"]),
-                    encodings=encs, codec=0, num_values=len(rep), data_page_offset=data_off,
-                    dictionary_page_offset=dict_off, total_uncompressed_size=size,
+                    encodings=encs, codec=CODECS[codec], num_values=len(rep), data_page_offset=data_off,
+                    dictionary_page_offset=dict_off, total_uncompressed_size=usize_total,
                     total_compressed_size=size, i32list=[1, 4])
                 chunks.append(pt.ColumnChunk(file_offset=start, meta_data=cmd))
                 wrg.append(dict(col=c["name"], which=leaf["which"], row_opt=leaf["row_opt"],
